@@ -13,7 +13,8 @@ CONSTANTS MaxDepth,     \* depth of the trees
 
 P == N("probe", "", <<>>)
 Wrap(m, t) == N(m, "", <<t>>)
-Modes == {"auto", "fill", "match"}
+Modes == {"auto", "fill", "match", "group"}
+ST == N("stop", "", <<>>)
 
 \* trees by constructor choice; W(d): a "wrapped thing" of depth <= d
 RECURSIVE Trees(_)
@@ -21,7 +22,7 @@ Trees(d) ==
   IF d = 0 THEN {P}
   ELSE LET S == Trees(d - 1) IN
        {P}
-       \cup {Wrap(m, t) : m \in Modes, t \in S}
+       \cup {Wrap(m, t) : m \in Modes, t \in S} \cup {Wrap("group", ST)}
        \cup {N(k, "", <<a, b>>) : k \in {"tup", "pipe"}, a \in S, b \in S}
        \cup {N("dict", "", <<a, b>>) : a \in S, b \in S}
        \cup {N("coal", "", <<a>>) : a \in S}
@@ -32,12 +33,16 @@ Trees(d) ==
 \* keep only trees that are meaningful (a static condition on the tree)
 RECURSIVE NoDict(_)
 NoDict(t) == t.k \notin {"dict", "mdict"} /\ \A i \in 1..Len(t.c) : NoDict(t.c[i])
+RECURSIVE NoGroup(_)
+NoGroup(t) == t.k # "group" /\ \A i \in 1..Len(t.c) : NoGroup(t.c[i])
 RECURSIVE WellModed(_, _)
 WellModed(t, mode) ==
-  /\ (t.k \in {"tup", "dict"} => mode # "MATCH")
-  /\ (t.k = "mdict" => mode = "MATCH" /\ NoDict(t.c[1]))     \* the key spec's result must be hashable
+  /\ (t.k \in {"tup", "dict"} => mode \notin {"MATCH", "GROUP"})   \* there they are patterns / accumulators
+  /\ (t.k = "mdict" => mode = "MATCH" /\ NoDict(t.c[1]) /\ NoGroup(t.c[1]))   \* key result hashable, key target a string
+  /\ (t.k = "stop" => FALSE)
   /\ \A i \in 1..Len(t.c) :
-        WellModed(t.c[i], IF t.k \in Modes THEN ModeOf(t.k) ELSE mode)
+        \/ (t.k = "group" /\ t.c[i].k = "stop")          \* STOP directly under Group ends its iteration
+        \/ WellModed(t.c[i], IF t.k \in Modes THEN ModeOf(t.k) ELSE mode)
 
 VARIABLES tree, run, k, table, phase
 vars == <<tree, run, k, table, phase>>
